@@ -309,6 +309,38 @@ pub fn run_check(replay: Option<Value>) -> i32 {
             }
         }
     }
+    // no budget given means no budget: runs of more than 12 000 steps (max_step = span/12000) go through, and a
+    // budget of 13 000 gives the same run
+    for m in M6 {
+        let key = format!("unbudgeted:{}", mname(m));
+        if only.as_ref().map(|o| *o != key).unwrap_or(false) {
+            continue;
+        }
+        let p = base(Base::Harmonic(1.0));
+        let mut c = Cfg::new(m, 0.0, 6.0, &p.y0).tol(1e-4, 1e-6);
+        c.user_jac = true;
+        c.max_step = Some(6.0 / 12000.0);
+        c.first_step = Some(6.0 / 12000.0);
+        let r = run(&p, &c);
+        let mut cb = c.clone();
+        cb.max_steps = Some(13_000);
+        let rb = run(&p, &cb);
+        rep.evaluations += 2;
+        rep.transitions += r.st.n_ode + rb.st.n_ode;
+        let ok = match (r.sol(), rb.sol()) {
+            (Some(a), Some(b)) => a.status == Status::Success && b.status == Status::Success && a.t.len() > 12000 && a.t.len() == b.t.len() && a.t.last().map(|t| t.to_bits()) == Some(6.0f64.to_bits()) && r.st.fp == rb.st.fp,
+            _ => false,
+        };
+        rep.validated += 1;
+        *rep.tags.entry("unbudgeted-long-run".into()).or_insert(0) += 1;
+        if !ok {
+            rep.violations.push(
+                Violation::new(&key, "unbudgeted", format!("{} with max_step = span/12000 and no max_steps: {} ({} samples, last {:?}); with max_steps = 13000: {} ({} samples)", mname(m), r.outcome_name(), r.sol().map(|s| s.t.len()).unwrap_or(0), r.sol().and_then(|s| s.t.last().copied()), rb.outcome_name(), rb.sol().map(|s| s.t.len()).unwrap_or(0)), json!({"key": key}))
+                    .with("method", mname(m))
+                    .with("backward", false),
+            );
+        }
+    }
     if let Value::Array(a) = &mut rep.dims {
         a.push(json!({"group": "budget", "every_budget": "1 ..= nstep_full + 2", "configurations": groups}));
     }
